@@ -365,6 +365,20 @@ def special_population_case(case):
         for a in agents:
             env.add_agent(a)
         tmpls = TEMPLATES
+    elif case['how'] == 'derived_types':
+        class XS(X):
+            """A component class DERIVED from X: an agent carrying only XS does not carry X (types are exact keys)."""
+        env = m.environment
+        agents = [Core.Agent('base', m), Core.Agent('derived', m, tag=1), Core.Agent('both', m), Core.Agent('none', m, tag=1)]
+        agents[0].add_component(X(agents[0], m))
+        agents[1].add_component(XS(agents[1], m))
+        agents[1].add_component(Y(agents[1], m))
+        agents[2].add_component(XS(agents[2], m))
+        agents[2].add_component(X(agents[2], m))
+        for a in agents:
+            env.add_agent(a)
+        types['S'] = XS
+        tmpls = [(), ('X',), ('S',), ('X', 'S'), ('S', 'X'), ('Y', 'X'), ('Y', 'S'), ('Y',)]
     elif case['how'] == 'compound_tags':
         # tags that are tuples (a species / role pair): a tag filter selects the agents with PRECISELY that tag
         env = m.environment
@@ -449,13 +463,24 @@ def crowd_case(case):
             a.add_component(X(a, m))
         if i % 5 == 0:
             a.add_component(Y(a, m))
+        if i % 200 == 3:
+            a.add_component(Z(a, m))      # a rare type: a handful of carriers at joining time
         agents.append(a)
         env.add_agent(a)
     for i in range(1, n, 11):
         env.remove_agent(f'c{i}')
     res = [a for i, a in enumerate(agents) if not (i % 11 == 1)]
+    for i in range(7, n, 97):
+        # components attached AFTER the agent joined, of a type only few agents carry (Z) and of a common one (Y)
+        a = agents[i]
+        if a in res:
+            if Z not in a.components:
+                a.add_component(Z(a, m))
+            if Y not in a.components:
+                a.add_component(Y(a, m))
+    agents[4].add_component(Z(agents[4], m))
     q = 0
-    for tmpl in ((), ('X',), ('Y',), ('X', 'Y'), ('Y', 'X'), ('Z',), ('X', 'X')):
+    for tmpl in ((), ('X',), ('Y',), ('X', 'Y'), ('Y', 'X'), ('Z',), ('X', 'X'), ('Z', 'Y'), ('Z', 'X')):
         targs = [TYPES[t] for t in tmpl]
         for tag in (None, 0, 2, 'np1', 9):
             kw = {} if tag is None else {'tag': tag_value(tag)}
@@ -466,7 +491,7 @@ def crowd_case(case):
                 raise Violation(f'{n} agents, template {list(tmpl)} tag {tag}: get_agents differs from the exact filter in '
                                 f'joining order', expected=[a.id for a in exp[:6]], observed=[getattr(a, 'id', a) for a in got[:6]])
             ids = {id(a) for a in exp}
-            for _ in range(64):
+            for _ in range(12):
                 r = env.get_random_agent(*targs, **kw)
                 if (r is None) != (not exp) or (r is not None and id(r) not in ids):
                     raise Violation(f'{n} agents, template {list(tmpl)} tag {tag}: get_random_agent outside the filter',
@@ -475,7 +500,7 @@ def crowd_case(case):
             if len(s) != len(exp) or {id(a) for a in s} != ids:
                 raise Violation(f'{n} agents, template {list(tmpl)} tag {tag}: shuffle is not a permutation of the filter',
                                 expected=len(exp), observed=len(s))
-    return q * 66
+    return q * 14
 
 
 def in_system_case(case):
@@ -639,7 +664,7 @@ def run(ctx):
             ctx.report(case, v)
             return
     ctx.leg('class_churn_and_detached_env', cases=len(extra))
-    for how in ('class_component', 'odd_agents', 'compound_tags', 'grid_unpositioned', 'space_unpositioned'):
+    for how in ('class_component', 'odd_agents', 'derived_types', 'compound_tags', 'grid_unpositioned', 'space_unpositioned'):
         case = {'leg': 'special_population', 'how': how}
         ctx.traces += 1
         try:
@@ -648,7 +673,7 @@ def run(ctx):
         except Violation as v:
             ctx.report(case, v)
             return
-    ctx.leg('special_population', cases=5)
+    ctx.leg('special_population', cases=6)
     case = {'leg': 'crowd', 'n': 130 if ctx.small else 1300, 'seed': ctx.seed}
     ctx.traces += 1
     try:
@@ -657,7 +682,7 @@ def run(ctx):
     except Violation as v:
         ctx.report(case, v)
         return
-    ctx.leg('crowd', note='1300 agents, 7 templates x 5 tag filters, 64 seeded picks each (membership only)')
+    ctx.leg('crowd', note='1300 agents, 7 templates x 5 tag filters, 12 seeded picks each (membership only)')
     for p in POOLS:
         case = {'leg': 'in_system', 'pool': p}
         ctx.traces += 1
